@@ -195,12 +195,12 @@ def fixJudge (st : St) (kind : String) (root : Bool) (start : List (List Int)) (
       | none => s!"ok fix {kind} oracle-only"
       | some none =>
         if learned then s!"ok fix {kind} learned" else
-        s!"FAIL fix {kind} model-conflict-real-none start={showDoms start} real={showDoms aft}"
+        s!"FAIL fix {kind} CORR model-conflict-real-none start={showDoms start} real={showDoms aft}"
       | some (some md) =>
         if domsSub aft md && domsSub md aft then s!"ok fix {kind} exact"
         else if domsSub aft md then
-          (if learned then s!"ok fix {kind} learned-stronger" else s!"FAIL fix {kind} real-stronger-than-model start={showDoms start} real={showDoms aft} model={showDoms md}")
-        else s!"FAIL fix {kind} real-weaker-than-model start={showDoms start} real={showDoms aft} model={showDoms md}"
+          (if learned then s!"ok fix {kind} learned-stronger" else s!"FAIL fix {kind} CORR real-stronger-than-model start={showDoms start} real={showDoms aft} model={showDoms md}")
+        else s!"FAIL fix {kind} CORR real-weaker-than-model start={showDoms start} real={showDoms aft} model={showDoms md}"
   | none =>
     match (solutions { doms := start, cons := cons }) with
     | a :: _ => s!"FAIL fix {kind} conflict-with-solution {a} start={showDoms start}"
@@ -209,7 +209,7 @@ def fixJudge (st : St) (kind : String) (root : Bool) (start : List (List Int)) (
       | none => s!"ok fix {kind} oracle-only"
       | some none => s!"ok fix {kind} exact"
       | some (some md) => if learned then s!"ok fix {kind} learned" else
-        s!"FAIL fix {kind} real-conflict-model-none start={showDoms start} model={showDoms md}"
+        s!"FAIL fix {kind} CORR real-conflict-model-none start={showDoms start} model={showDoms md}"
 
 def applyAtom (d : List (List Int)) (p : Atom) : List (List Int) := Pumpkin.AtomRup.assume d p
 
